@@ -115,3 +115,6 @@ def run(ctx: Ctx) -> None:
     ctx.do(c16.rule_hookreg)
     ctx.do(rule_num_prescale)
     ctx.do(MEMO.rule_memo)
+    from kfv.rules import c16 as C16
+    ctx.do(C16.rule_register, 'layers.register.register_modules', False)
+    ctx.do(C16.rule_register, 'gpt_neox.preconditioner.register_modules', True)
